@@ -61,6 +61,9 @@ VARIANTS = [
      "old": "            data = data[:msg_size]\n", "new": "            pass\n"},
     {"name": "R1 module helper outside the owners clears the raw body", "file": MSG, "expect": "C02.R1",
      "old": "def _trunc_repr(val, max_len):\n", "new": "def forget_wire_form(msg):\n    msg.raw_body = None\n\n\ndef _trunc_repr(val, max_len):\n"},
+    {"name": "R1 raw body re-read from the message instead of the snapshot", "expect": "C02.R1", "edits": [
+        {"file": SER, "old": "        raw_body = msg.raw_body\n        if raw_body is not None:", "new": "        if msg.raw_body is not None:"},
+        {"file": SER, "old": "writer.write_bytes(raw_body)", "new": "writer.write_bytes(msg.raw_body)"}]},
     # ------------------------------------------------------------------ R1 preserving
     {"name": "P R1 rename the saved raw body local in serialize", "expect": "silent", "edits": [
         {"file": SER, "old": "        raw_body = msg.raw_body\n", "new": "        unparsed = msg.raw_body\n"},
